@@ -135,6 +135,8 @@ def inverse_cdf(pi, k, frac, n_s, seed, call_no):
     if not (isinstance(u, SymArr) and u.op == "rng.random" and u.args[0] == keyof(seed) and u.args[1] == call_no
             and len(u.args[2]) == 1 and int(u.args[2][0]) == n_s):
         return False, f"uniform variates are not rng.random(n_samples) of the seeded generator: {u!r} {getattr(u, 'args', None)}"
+    if len(u.args) > 3 and u.args[3]:
+        return False, f"uniform variates are drawn with non-default options {u.args[3]} (a narrower dtype makes exact 0.0 draws, hence zero-volume grains, 2^29 times more likely and distorts small probabilities)"
     if dict(kw).get("side", "left") != "left":
         return False, "searchsorted side changed"
     return True, ""
